@@ -732,9 +732,9 @@ func bigSizes(tier string) []int {
 	for p := 4; p <= top; p++ {
 		s = append(s, 1<<p-1, 1<<p, 1<<p+1)
 	}
-	s = append(s, 27, 53, 100, 105, 209, 417, 833, 1000, 1500, 1665, 3000, 3329) // incl. 6.5*2^B +1 (runtime map growth points)
+	s = append(s, 27, 53, 100, 105, 209, 417, 833, 1000, 1665, 3329) // incl. 6.5*2^B +1 (runtime map growth points)
 	if tier == "thorough" {
-		s = append(s, 6000, 10000, 32769, 65537, 100000)
+		s = append(s, 1500, 3000, 6000, 10000, 32769, 65537, 100000)
 	}
 	return s
 }
@@ -780,7 +780,7 @@ var specBig = pbt.Register(&pbt.Spec[BigCase]{
 		"doubly-colliding Adds (3-pair evictions crossing every size), rotating or random mixes; churn; Clear; Clone with both sides mutated afterwards; Range all / early stop at 1, Len-1, Len, Len+1; " +
 		"Range with read-only nested calls: inner full Ranges, inner early-stopped Ranges, Len/lookups/Clone inside the callback, Ranges over the other boxes (clones/originals)); keys/values picked by a case-seeded LCG from live pairs, freed (re-used) and never-used ones, the i-th new key/value being i/3, MaxInt-i/3 or MinInt+i/3 (both ends of the int range); " +
 		"enumerated: 6 scripts (Clear+re-use; eviction descent; removal descents; Clone; mixes; sawtooth around peak/2, peak/4, peak/8 with removals up to the line and evictions across it, and vice versa) x peak sizes " +
-		"{1,2,3,5,7,8,9,12,13,14, 2^p-1, 2^p, 2^p+1 for p=4..12 (thorough ..14), 27,53,100,105,209,417,833,1000,1500,1665,3000,3329 (thorough + 6000,10000,32769,65537,100000)}; " +
+		"{1,2,3,5,7,8,9,12,13,14, 2^p-1, 2^p, 2^p+1 for p=4..12 (thorough ..14), 27,53,100,105,209,417,833,1000,1665,3329 (thorough + 1500,3000,6000,10000,32769,65537,100000)}; " +
 		"rapid: peak size drawn from the same list (<= 4097), first step fill, then 2..24 random steps with targets 0,1,N/8,N/4-1,N/4,N/4+1,N/2,N-1,N,N+1; " +
 		"oracle: model; touched keys/values + Len compared before and after every single call, whole universe of every box at the end of every step and at power-of-two and peak/2,/4,/8 sizes; " +
 		"non-trivial = some box reached >= 65 pairs",
@@ -834,7 +834,7 @@ var specBig = pbt.Register(&pbt.Spec[BigCase]{
 		c.Steps = append(c.Steps, pbt.OpsOf(t, step, []int{2, 5, 9}, "steps")...)
 		return c
 	},
-	Run: RunBig, Quick: 300, Thorough: 3000,
+	Run: RunBig, Quick: 200, Thorough: 3000,
 })
 
 func TestC11Big(t *testing.T) { pbt.Check(t, specBig) }
